@@ -417,6 +417,9 @@ def boundary_values(rng, t, exhaustive8=False, lexical=True):
                   'Duration': ['P1DT2H', 'PT5S', '-P1Y', 'PT1.5S'], 'Uuid': ['12345678-1234-1234-1234-123456789012'], 'Boolean': ['true', '0'],
                   'Double': ['1.5', '1e3', 'INF'], 'Decimal': ['1.5', '-2'], 'Integer': ['12'], 'Integer32': ['12'], 'UnsignedInteger8': ['12']}.get(kind, [])
         for lit in around:
+            # characters that Python's str.strip() and \s take for white space and XML Schema does not (its white space is #x20 #x9 #xD #xA)
+            out += [(Raw(sp_ + lit), 'lexical_other_space_before') for sp_ in ('\u00a0', '\u2003', '\u3000', '\u0085', '\x0b', '\x0c', '\u2028', '\x1f')[:3 if not exhaustive8 else 8]]
+            out += [(Raw(lit + sp_), 'lexical_other_space_after') for sp_ in ('\u00a0', '\u202f', '\ufeff', '\x1c')]
             out += [(Raw(lit + 'junk'), 'lexical_trailing_text'), (Raw('junk' + lit), 'lexical_leading_text'), (Raw(lit + ' ' + lit), 'lexical_twice'),
                     (Raw(lit + '\n.'), 'lexical_trailing_line')]
         out += [(Raw(x), 'lexical_degenerate') for x in {'Duration': ['P', 'PT', '-P', 'P1D2H', 'PT1.S', 'P1DT', 'P-1D', 'PT1H1D', 'P1.5D'],
